@@ -370,6 +370,10 @@ def run(tier):
                # the type of adjacent string literals: one prefix anywhere gives the whole literal that element type (6.4.5p5)
                ('return _Generic(u"ab" "cd", unsigned short *: 1, char *: 2, default: 3);', 1), ('return _Generic(U"ab" "cd", unsigned *: 1, char *: 2, default: 3);', 1), ('return _Generic("ab" u"cd" "e", unsigned short *: 1, char *: 2, default: 3);', 1),
                ('return sizeof(u"ab" "cd");', 10), ('return sizeof("ab" U"cd" "e");', 24), ('return sizeof(L"ab" "cd" "");', 20), ('return sizeof("ab" "cd");', 5),
+               # qualifiers written after one '*' qualify that pointer level only
+               ('int *const *pp = 0; return _Generic(&pp, int *const **: 1, default: 3);', 1), ('int *const *pp = 0; int n = 0; int *const q = &n; pp = &q; return _Generic(pp, int *const *: 1, default: 3);', 1),
+               ('int *volatile *const *p3 = 0; return _Generic(*p3, int *volatile *: 1, default: 3);', 1), ('return _Generic((int *const **)0, int *const **: 1, int *const *const *: 2, default: 3);', 1),
+               ('const char *const *const *a = 0; return _Generic(**a, const char *: 1, default: 3);', 1), ('int (*const *fp)(void) = 0; return _Generic(&fp, int (*const **)(void): 1, default: 3);', 1),
                # size_t results
                ('struct S { char a; long b; }; return _Generic(__builtin_offsetof(struct S, b), unsigned long: 1, long: 2, default: 3);', 1), ('return _Generic(sizeof(int), unsigned long: 1, long: 2, default: 3);', 1),
                ('return _Generic(_Alignof(int), unsigned long: 1, long: 2, default: 3);', 1), ('struct S { char a; long b; }; return _Generic(__builtin_offsetof(struct S, b) + 1, unsigned long: 1, long: 2, default: 3);', 1),
